@@ -131,6 +131,20 @@ CHECKS["C18"] = dict(
          "the executed schedules exhibit. Event fan-out (C14) and topology (C16) families are added when those drivers exist.",
     design="§6 C18, §7")
 
+CHECKS["C10"] = dict(
+    category="exploration",
+    technique="TLA+ decision tables SystemTables.tla (configurations with expected ring; selects with expected projection) checked and exported by TLC; "
+              "rows replayed end-to-end into in-process proxies by harness/cmd/vdrv-systables; disagreements keyed by minimal abstract feature set",
+    text="for every peer list of 0..5 addresses in every order (plus stride-permuted lists of 10/12/16), own entry present/absent/no rpc-address, DC "
+         "none/all/mixed, tokens none/all, DSE or not, every proxy of the group is really started and its system.local/system.peers answers (QUERY and "
+         "PREPARE+EXECUTE) for every selector list of length <=2 (+ reduced length 3, + identifier-spelling variants) have exactly the specified columns, "
+         "decode under the advertised types, carry the configured/backend facts, v3 host ids, count = row count, and proxies sharing a list present "
+         "identical rings with computed tokens starting at the minimum token and strictly increasing in address order",
+    note="Bounded enumeration, no proof beyond the bounds; concrete IPv4/IPv6 addresses are a seeded order-preserving sample (16-byte order); even token "
+         "spacing, rack/cluster_name/schema_version values, `*` column order, the row count of aggregate answers and the data center of DC-less peers in "
+         "mixed lists are not asserted; trusts the fake backend and the reference codecs of go-cassandra-native-protocol; protocol v4 only.",
+    design="§6 C10")
+
 NOT_YET = "check not built yet in this session (planned, see DESIGN.md §6)"
 
 
